@@ -42,12 +42,20 @@ def decorator(kind, ver):
     return {"object": mod.CustomObject, "observable": mod.CustomObservable, "marking": mod.CustomMarking, "extension": mod.CustomExtension}[kind]
 
 
-def props_for(kind, ver, names=("prop_one", "prop_two")):
+def props_for(kind, ver, names=("prop_one", "prop_two"), second=None):
     from stix2 import properties as P
-    return [(names[0], P.StringProperty(required=True)), (names[1], P.IntegerProperty())]
+    return [(names[0], P.StringProperty(required=True)), (names[1], second() if second else P.IntegerProperty())]
 
 
-def register(kind, ver, name, prop_names=("prop_one", "prop_two")):
+def property_classes(ver):
+    """the classes a (badly named) property may be declared with: the naming rules are about the name"""
+    from stix2 import properties as P
+    return [("IntegerProperty", P.IntegerProperty), ("StringProperty", P.StringProperty), ("IDProperty", lambda: P.IDProperty("x-any", spec_version=ver)),
+            ("TimestampProperty", P.TimestampProperty), ("ListProperty", lambda: P.ListProperty(P.StringProperty)), ("BooleanProperty", P.BooleanProperty),
+            ("DictionaryProperty", lambda: P.DictionaryProperty(spec_version=ver)), ("HashesProperty", lambda: P.HashesProperty(["MD5"], spec_version=ver))]
+
+
+def register(kind, ver, name, prop_names=("prop_one", "prop_two"), second=None):
     dec = decorator(kind, ver)
 
     class Body(object):
@@ -55,7 +63,7 @@ def register(kind, ver, name, prop_names=("prop_one", "prop_two")):
     Body.__name__ = "C19_" + "".join(c if c.isalnum() else "_" for c in name)[:40]
     with warnings.catch_warnings():
         warnings.simplefilter("ignore")
-        return dec(name, props_for(kind, ver, prop_names))(Body)
+        return dec(name, props_for(kind, ver, prop_names, second))(Body)
 
 
 def instance(kind, ver, name, rng):
@@ -220,9 +228,12 @@ def wl_history(ctx, rng, i):
             label, bad = rng.choice(BAD_PROP_NAMES)
             if label == "leading-digit-2.1" and ver == "2.0":
                 continue
+            pcname, pc = rng.choice(property_classes(ver))
+            ctx.see("classes of badly named properties", pcname)
             try:
-                register(kind, ver, name, prop_names=("prop_one", bad))
-                ctx.violation("property-name-rules:" + label, "%s %s with property name %r (%s) was registered" % (ver, kind, bad[:40], label), dict(w, property=bad[:60], rule=label))
+                register(kind, ver, name, prop_names=("prop_one", bad), second=pc)
+                ctx.violation("property-name-rules:" + label, "%s %s with property name %r (%s, declared as %s) was registered" % (ver, kind, bad[:40], label, pcname),
+                              dict(w, property=bad[:60], rule=label, declared_as=pcname))
             except family():
                 ctx.count("refusals")
             ctx.nontrivial(kind, ver, step, label)
@@ -381,7 +392,10 @@ def wl_toplevel(ctx, rng, i):
     dec2 = stix2.v21.CustomObject if kind2 == "object" else stix2.v21.CustomObservable
     bad_name = rng.choice(["a b", "fo", "Foo_bar", "foo-bar"])
     for attempt, props, extname in (("bad property name", [(bad_name, P.StringProperty())], ename2), ("extension_name that is no extension definition id", [("prop_one", P.StringProperty())], "x-stixmon-not-an-id-ext"),
-                                    ("extension_name that is taken", [("prop_one", P.StringProperty())], ename)):
+                                    ("extension_name that is taken", [("prop_one", P.StringProperty())], ename),
+                                    ("extension_name that breaks the naming rules", [("prop_one", P.StringProperty())],
+                                     rng.choice(["extension-definition--" + V.uuid_text(rng, 4).upper().replace("0", "A", 1) + "B"[:0], "x-stixmon--not-an-extension", "extension-definition--" + "a" * 250,
+                                                 "Extension-Definition--" + V.uuid_text(rng, 4), "extension-definition--" + V.uuid_text(rng, 4) + "\n"]))):
         ctx.ev()
         ctx.count("registration_attempts")
         try:
@@ -413,6 +427,70 @@ def wl_toplevel(ctx, rng, i):
         ctx.violation("toplevel-extension-admits-undeclared-property", "a property the registered toplevel extension does not declare was accepted in strict mode", w)
     except family():
         pass
+    # a second registered toplevel-property-extension: using both on one object does not make either vouch for the other's properties
+    ename3 = "extension-definition--" + V.uuid_text(rng, 4)
+    pc3 = "zone_%d" % (i % 3)
+    try:
+        with warnings.catch_warnings():
+            warnings.simplefilter("ignore")
+            stix2.v21.CustomExtension(ename3, [(pc3, P.StringProperty())])(type("Ext3", (object,), {"extension_type": "toplevel-property-extension"}))
+            tl = {"extension_type": "toplevel-property-extension"}
+            order = [ename, ename3] if i % 2 == 0 else [ename3, ename]
+            for route in ("constructor", "parse"):
+                kwb = dict(base, extensions={k: dict(tl) for k in order}, **{pa: 3, pc3: "z"})
+                both = host_cls(**kwb) if route == "constructor" else stix2.parse(json.dumps(dict(json.loads(host_cls(**kwb).serialize()))))
+                if both.has_custom:
+                    ctx.violation("toplevel-extension-property-counted-as-custom", "a host with two registered toplevel extensions is flagged custom", dict(w, route=route))
+        ctx.ev()
+        ctx.count("two_toplevel_extension_uses")
+        for mine, theirs, pname, pval, need in ((ename, ename3, pc3, "z", {pa: 3}), (ename3, ename, pa, 3, {})):
+            try:
+                with warnings.catch_warnings():
+                    warnings.simplefilter("ignore")
+                    host_cls(extensions={mine: dict(tl)}, **dict(base, **dict(need, **{pname: pval})))
+                ctx.violation("registration-altered-by-use", "after an object carried the toplevel extensions %s and %s together, %s alone admits the other's property %r in strict mode" % (
+                    ename[-4:], ename3[-4:], mine[-4:], pname), dict(w, other_extension=theirs, property=pname))
+            except family():
+                pass
+    except family() as e:
+        ctx.violation("valid-registration-refused", "using two registered toplevel-property-extensions together raised %s: %s" % (type(e).__name__, str(e)[:100]), dict(w, exception=repr(e)))
+    # a custom type with lists of every plain property class: its objects are accepted and round-trip like built-in ones
+    lname = "x-stixmon-c19-%s-lists%d" % (ctx.seed, i)
+    try:
+        with warnings.catch_warnings():
+            warnings.simplefilter("ignore")
+            lcls = stix2.v21.CustomObject(lname, [("stamps", P.ListProperty(P.TimestampProperty())), ("flags", P.ListProperty(P.BooleanProperty())), ("ratios", P.ListProperty(P.FloatProperty())),
+                                                  ("blobs", P.ListProperty(P.HexProperty())), ("bins", P.ListProperty(P.BinaryProperty())), ("counts", P.ListProperty(P.IntegerProperty()))])(type("L", (object,), {}))
+            vals = {"stamps": ["2020-01-01T00:00:00Z", "2021-02-03T04:05:06.789Z"], "flags": [True, False], "ratios": [1.5, 2.0], "blobs": ["ab12"], "bins": ["YWJj"], "counts": [1, 2]}
+            k = rng.choice(sorted(vals))
+            ctx.ev()
+            ctx.count("list_property_objects")
+            lo = lcls(**{k: vals[k]})
+            back = stix2.parse(lo.serialize())
+            if type(back) is not lcls or back != lo or json.loads(back.serialize())[k] != vals[k]:
+                ctx.violation("custom-type-round-trip", "an object of a custom type with a list of %s does not round-trip" % k, dict(w, type=lname, property=k, text=lo.serialize()))
+    except family() as e:
+        ctx.violation("custom-type-list-property-refused", "a custom type's ListProperty value was refused: %s" % str(e)[:140], dict(w, type=lname, exception=repr(e)[:300]))
+    # a 2.0 custom object type whose name a 2.1 custom observable takes later: each version's content still reads as its own
+    xname = "x-stixmon-c19-%s-xv%d" % (ctx.seed, i)
+    try:
+        with warnings.catch_warnings():
+            warnings.simplefilter("ignore")
+            c20 = stix2.v20.CustomObject(xname, [("prop_one", P.StringProperty())])(type("X20", (object,), {}))
+            o20 = c20(prop_one="a")
+            t20 = o20.serialize()
+            before = type(stix2.parse(t20))
+            c21 = stix2.v21.CustomObservable(xname, [("prop_one", P.StringProperty())], ["prop_one"])(type("X21", (object,), {}))
+            o21 = c21(prop_one="a")
+            ctx.ev()
+            ctx.count("cross_version_same_name")
+            for lab, text, want in (("2.0 object", t20, c20), ("2.1 observable", o21.serialize(), c21)):
+                st, r = parse_outcome(json.loads(text), (lambda o: o))
+                if st != "class" or type(r) is not want:
+                    ctx.violation("registration-not-version-scoped", "after %r was registered as a 2.0 object and as a 2.1 observable, content of the %s (no version named) reads as %s" % (
+                        xname, lab, type(r).__name__ if st == "class" else "refused: " + str(r)[:100]), dict(w, name=xname, content=lab, text=text, before_second_registration=before.__name__))
+    except family() as e:
+        ctx.violation("valid-registration-refused", "registering one name as a 2.0 object and a 2.1 observable raised %s: %s" % (type(e).__name__, str(e)[:100]), dict(w, name=xname))
     ctx.nontrivial("toplevel", host_cls.__name__, i % 35)
     ctx.count("toplevel_cases")
 
